@@ -5,6 +5,7 @@ import (
 	"go/constant"
 	"go/token"
 	"go/types"
+	"golang.org/x/tools/go/cfg"
 	"strings"
 )
 
@@ -96,6 +97,42 @@ func init() {
 					return true
 				})
 			}
+			// ... or an if / else-if chain comparing the symbol's text with each control symbol
+			type ifCmp struct {
+				hu   FuncUnit
+				stmt *ast.IfStmt
+				sym  string
+			}
+			var chain []ifCmp
+			if cntSwitch == nil {
+				for _, hu := range family {
+					hu := hu
+					ast.Inspect(hu.Decl.Body, func(n ast.Node) bool {
+						is, ok := n.(*ast.IfStmt)
+						if !ok {
+							return true
+						}
+						be, ok := ast.Unparen(is.Cond).(*ast.BinaryExpr)
+						if !ok || be.Op != token.EQL {
+							return true
+						}
+						for _, e := range []ast.Expr{be.X, be.Y} {
+							if sv, ok := constStringVal(info, e); ok && strings.HasPrefix(sv, "&") {
+								got[sv] = true
+								chain = append(chain, ifCmp{hu, is, sv})
+								if len(is.Body.List) == 1 {
+									if as, ok := is.Body.List[0].(*ast.AssignStmt); ok && len(as.Lhs) == 1 && len(as.Rhs) == 1 && isBoolConst(info, as.Rhs[0], true) {
+										if role, ok := want[sv]; ok {
+											flagOf[role] = identObj(info, as.Lhs[0])
+										}
+									}
+								}
+							}
+						}
+						return true
+					})
+				}
+			}
 			okSyms := len(got) == len(want)
 			for s := range want {
 				if !got[s] {
@@ -110,13 +147,20 @@ func init() {
 			// 3. counting rule: in the counting unit, the flags are the variables the control-symbol
 			// cases set; the counters are the integers the default case increments — the one
 			// incremented under a test of the optional/key flags counts required arguments
-			if cntSwitch == nil {
+			if cntSwitch == nil && len(chain) == 0 {
 				obs = append(obs, mkOb(c, "ARITY.table-shape", u, "counting rule", fd, Undecided, "no switch over the control symbols found in the table builder", false))
 				return obs
 			}
+			var anchorPos, anchorEnd token.Pos
+			if cntSwitch != nil {
+				anchorPos, anchorEnd = cntSwitch.Pos(), cntSwitch.End()
+			} else {
+				cntUnit = chain[0].hu
+				anchorPos, anchorEnd = chain[0].stmt.Pos(), chain[0].stmt.End()
+			}
 			var lit *ast.FuncLit
 			ast.Inspect(cntUnit.Decl.Body, func(n ast.Node) bool {
-				if l, ok := n.(*ast.FuncLit); ok && l.Pos() <= cntSwitch.Pos() && cntSwitch.End() <= l.End() {
+				if l, ok := n.(*ast.FuncLit); ok && l.Pos() <= anchorPos && anchorEnd <= l.End() {
 					lit = l
 				}
 				return true
@@ -129,7 +173,63 @@ func init() {
 			var maxFld types.Object = c.LookupField("lint.aritySpec.max")
 			optO, keyO, varO := flagOf["OptArgSymbol"], flagOf["KeyArgSymbol"], flagOf["VarArgSymbol"]
 			var minO, maxO types.Object
-			for _, cl := range cntSwitch.Body.List {
+			if cntSwitch == nil {
+				// the "default case" of a chain: what runs when the text equals none of the control
+				// symbols; the counter incremented only behind the optional/key flags is the minimum
+				reach := fc.reachableUnder(func(e ast.Expr) int {
+					be, ok := ast.Unparen(e).(*ast.BinaryExpr)
+					if !ok || (be.Op != token.EQL && be.Op != token.NEQ) {
+						return -1
+					}
+					for _, x := range []ast.Expr{be.X, be.Y} {
+						if sv, ok := constStringVal(info, x); ok && strings.HasPrefix(sv, "&") {
+							if be.Op == token.EQL {
+								return 0
+							}
+							return 1
+						}
+					}
+					return -1
+				})
+				flagCls := func(e ast.Expr) (string, bool) {
+					switch identObj(info, e) {
+					case optO:
+						return "opt", false
+					case keyO:
+						return "key", false
+					}
+					return "", false
+				}
+				reqEdges := fc.edgesEntailing(flagCls, func(v map[string]bool) bool { return (v["$has:opt"] && !v["opt"]) && (v["$has:key"] && !v["key"]) })
+				incBlocks := map[types.Object][]*cfg.Block{}
+				for b := range reach {
+					for _, n := range b.Nodes {
+						if inc, ok := n.(*ast.IncDecStmt); ok && inc.Tok == token.INC {
+							if o := identObj(info, inc.X); o != nil {
+								incBlocks[o] = append(incBlocks[o], b)
+							}
+						}
+					}
+				}
+				for o, bs := range incBlocks {
+					guarded := len(reqEdges) > 0
+					for _, b := range bs {
+						if fc.reachableAvoiding(b, reqEdges) {
+							guarded = false
+						}
+					}
+					if guarded {
+						minO = o
+					} else {
+						maxO = o
+					}
+				}
+			}
+			var swClauses []ast.Stmt
+			if cntSwitch != nil {
+				swClauses = cntSwitch.Body.List
+			}
+			for _, cl := range swClauses {
 				cc := cl.(*ast.CaseClause)
 				if cc.List != nil {
 					continue
@@ -237,6 +337,62 @@ func init() {
 					okMax = false
 				}
 			}
+			if !okMax && len(bounded) > 0 {
+				// one composite with `max: upper`, where upper starts as the finite count and is
+				// overwritten with -1 under variadic || inKey: the finite value reaches the table only
+				// past the overwrite's block or over an edge entailing !variadic && !inKey
+				var upper types.Object
+				var comp map[*cfg.Block]bool
+				comp = fc.blocksWith(func(n ast.Node) bool {
+					found := false
+					ast.Inspect(n, func(m ast.Node) bool {
+						if kv, ok := m.(*ast.KeyValueExpr); ok {
+							if id, ok := kv.Key.(*ast.Ident); ok && info.Uses[id] == maxFld {
+								if o := identObj(info, kv.Value); o != nil && o != maxO {
+									upper, found = o, true
+								}
+							}
+						}
+						return true
+					})
+					return found
+				})
+				if upper != nil {
+					defFinite := false
+					over := fc.blocksWith(func(n ast.Node) bool {
+						as, ok := n.(*ast.AssignStmt)
+						if !ok || len(as.Lhs) != len(as.Rhs) {
+							return false
+						}
+						for i, l := range as.Lhs {
+							if identObj(info, l) != upper {
+								continue
+							}
+							if identObj(info, as.Rhs[i]) == maxO {
+								defFinite = true
+							}
+							if k, okc := intConst(info, as.Rhs[i]); okc && k == -1 {
+								return true
+							}
+						}
+						return false
+					})
+					if defFinite && len(over) > 0 {
+						okMax = true
+						for b := range comp {
+							if fc.reachableAvoidingBlocks(b, bounded, over) {
+								okMax = false
+							}
+						}
+						// the overwrite itself happens only under variadic || inKey
+						for b := range over {
+							if fc.reachableAvoiding(b, unb) {
+								okMax = false
+							}
+						}
+					}
+				}
+			}
 			if okMax {
 				obs = append(obs, mkOb(c, "ARITY.table-shape", u, "upper bound", litNode, Proved, "a finite maximum is recorded only on an edge entailing !variadic && !inKey", true))
 			} else {
@@ -332,15 +488,53 @@ func init() {
 				}
 				return true
 			})
+			// the comparisons may be written in the literal or in a reporting helper of the package it
+			// calls (shared with user-arity); each is read with its polarity (`!(argc >= spec.min)`)
+			scanBodies := []ast.Node{lit.Body}
+			{
+				seenH := map[*types.Func]bool{}
+				var addHelpers func(n ast.Node, depth int)
+				addHelpers = func(n ast.Node, depth int) {
+					for _, ce := range callsIn(n, true) {
+						h := originOf(Callee(info, ce))
+						if h == nil || seenH[h] || depth > 1 || h.Pkg() != p.Types || h.Exported() {
+							continue
+						}
+						if hd := c.declOf[h]; hd != nil && hd.Body != nil {
+							seenH[h] = true
+							scanBodies = append(scanBodies, hd.Body)
+							addHelpers(hd.Body, depth+1)
+						}
+					}
+				}
+				addHelpers(lit.Body, 0)
+			}
+			for _, sb := range scanBodies {
+				ast.Inspect(sb, func(n ast.Node) bool {
+					var conds []ast.Expr
+					switch x := n.(type) {
+					case *ast.IfStmt:
+						conds = append(conds, x.Cond)
+					case *ast.CaseClause:
+						conds = append(conds, x.List...)
+					case *ast.AssignStmt:
+						conds = append(conds, x.Rhs...)
+					}
+					for _, cnd := range conds {
+						for _, a := range cmpAtomsOf(cnd) {
+							if minF != nil && ((a.Op == token.LSS && FieldOfSelector(info, a.Y) == minF) || (a.Op == token.GTR && FieldOfSelector(info, a.X) == minF)) {
+								hasMin = true
+							}
+							if maxF != nil && ((a.Op == token.GTR && FieldOfSelector(info, a.Y) == maxF) || (a.Op == token.LSS && FieldOfSelector(info, a.X) == maxF)) {
+								hasMax = true
+							}
+						}
+					}
+					return true
+				})
+			}
 			ast.Inspect(lit.Body, func(n ast.Node) bool {
 				switch x := n.(type) {
-				case *ast.BinaryExpr:
-					if x.Op == token.LSS && FieldOfSelector(info, x.Y) == minF && minF != nil {
-						hasMin = true
-					}
-					if x.Op == token.GTR && FieldOfSelector(info, x.Y) == maxF && maxF != nil {
-						hasMax = true
-					}
 				case *ast.IndexExpr:
 					if o := identObj(info, x.X); o != nil && o == tableVar {
 						usesTable = true
